@@ -152,7 +152,8 @@ class ContractDB:
         deco = [ast.unparse(d) for d in node.decorator_list]
         spec = dict(params=params, defaults=defaults, types=c.get('types', {}), requires=c.get('requires', ()),
                     ensures=c.get('ensures', ()), modifies=c.get('modifies', ()), returns=c.get('returns'),
-                    raises=c.get('raises'), allocates=c.get('allocates'))
+                    raises=c.get('raises'), allocates=c.get('allocates'), ghost=list(c.get('ghost', {})),
+                    defs=c.get('defs', {}), post_locals=[(n, c.get('locals', {}).get(n)) for n in c.get('post_locals', ())])
         if 'staticmethod' in deco:
             spec['static'] = True
         elif 'classmethod' in deco:
